@@ -1130,6 +1130,50 @@ func (t *tr) skelSenders(files []*ast.File) {
 	t.skel = append(t.skel, "senders: "+strings.Join(parts, "; "))
 }
 
+// holdsLock: the type is, embeds or has a field (at any depth, by value) of
+// type sync.Mutex / sync.RWMutex / syncutil.Mutex / syncutil.RWMutex.
+func holdsLock(ty types.Type, depth int) bool {
+	if depth > 6 || ty == nil {
+		return false
+	}
+	if n, ok := ty.(*types.Named); ok {
+		if o := n.Obj(); o.Pkg() != nil && (o.Name() == "Mutex" || o.Name() == "RWMutex") &&
+			(o.Pkg().Path() == "sync" || strings.HasSuffix(o.Pkg().Path(), "/syncutil")) {
+			return true
+		}
+	}
+	if st, ok := ty.Underlying().(*types.Struct); ok {
+		for i := 0; i < st.NumFields(); i++ {
+			if holdsLock(st.Field(i).Type(), depth+1) {
+				return true
+			}
+		}
+	}
+	return false
+}
+
+// skelLockCopies lists the methods declared with a VALUE receiver on a type
+// that holds a mutex: they lock a copy of it.
+func (t *tr) skelLockCopies(files []*ast.File) {
+	var all []string
+	for _, f := range files {
+		for _, d := range f.Decls {
+			fd, ok := d.(*ast.FuncDecl)
+			if !ok || fd.Recv == nil || len(fd.Recv.List) != 1 {
+				continue
+			}
+			if _, ptr := fd.Recv.List[0].Type.(*ast.StarExpr); ptr {
+				continue
+			}
+			if tv, ok := t.info.Types[fd.Recv.List[0].Type]; ok && holdsLock(tv.Type, 0) {
+				all = append(all, recvName(fd))
+			}
+		}
+	}
+	sort.Strings(all)
+	t.skel = append(t.skel, "methods locking a copy (value receiver on a type holding a mutex): "+strings.Join(all, ", "))
+}
+
 // the spotlight consumer is called from the reader loop, then from the drain
 // goroutine started after the loop ended and joined through readerDone
 func (t *tr) skelConsumer(files []*ast.File) {
@@ -1282,6 +1326,7 @@ func main() {
 	t.skelConsumer(files)
 	t.skelCloses(files)
 	t.skelSenders(files)
+	t.skelLockCopies(files)
 
 	sort.SliceStable(t.sites, func(i, j int) bool {
 		a, b := t.sites[i], t.sites[j]
